@@ -103,6 +103,12 @@ func cmdCheck(args []string) {
 	if r := os.Getenv("GOCV_ROOT"); r != "" {
 		verifRoot = r
 	}
+	// scratch runs (selftest, experiments) must not overwrite the evidence / replay files of the registered checks
+	outRoot := verifRoot
+	if r := os.Getenv("GOCV_SCRATCH"); r != "" {
+		outRoot = r
+		os.MkdirAll(outRoot, 0o755)
+	}
 	w, err := loadWorld()
 	if err != nil {
 		fmt.Fprintln(os.Stderr, "engine error:", err)
@@ -131,7 +137,7 @@ func cmdCheck(args []string) {
 		}
 	}
 	all = append(all, w.lemmaObligations(func(l *Lemma) bool { return hasProp(l.Props, prop) })...)
-	dir := filepath.Join(verifRoot, "out", prop)
+	dir := filepath.Join(outRoot, "out", prop)
 	os.RemoveAll(dir)
 	dischargeAll(w.x.U, all, dir, timeout, confirm, 10)
 
@@ -200,7 +206,7 @@ func cmdCheck(args []string) {
 	var violationLines []string
 	var knownLines []string
 	knownCount := 0
-	replayDir := filepath.Join(verifRoot, "replays", prop)
+	replayDir := filepath.Join(outRoot, "replays", prop)
 	os.MkdirAll(replayDir, 0o755)
 	var fnames []string
 	for n := range failed {
@@ -343,9 +349,9 @@ func cmdCheck(args []string) {
 		"wall_s":      round3(time.Since(start).Seconds()),
 		"violations":  len(violationLines),
 	}
-	os.MkdirAll(filepath.Join(verifRoot, "evidence"), 0o755)
+	os.MkdirAll(filepath.Join(outRoot, "evidence"), 0o755)
 	data, _ := json.MarshalIndent(ev, "", " ")
-	os.WriteFile(filepath.Join(verifRoot, "evidence", prop+".json"), data, 0o644)
+	os.WriteFile(filepath.Join(outRoot, "evidence", prop+".json"), data, 0o644)
 	fmt.Printf("%s %s: %d obligations (%d distinct), %d discharged, %d known-finding instances, %d violations, %d functions under contract, %.1fs\n",
 		prop, tier, nObl, len(names), nDis, knownCount, len(violationLines), len(fuc), time.Since(start).Seconds())
 	os.Exit(exit)
